@@ -56,7 +56,8 @@ def gen_config(rng, name, quick):
         warm = int(rng.choice([3, 4, 6, total + 3]))     # PETS fits its model at t = learning_starts: needs data in the buffer
     batch = 2
     uf = int(rng.choice([1, 2])) if name in ("nature_dqn", "ddqn", "per") else 1
-    return dict(script=script, total=total, start=start, limit=limit, warm=warm, batch=batch, uf=uf)
+    cap = int(rng.choice([1000, 1000, 4, 7]))          # small capacities: the ring wraps during the run
+    return dict(script=script, total=total, start=start, limit=limit, warm=warm, batch=batch, uf=uf, cap=cap)
 
 
 class RecAdds:
@@ -98,7 +99,7 @@ def collect(chk, rng, routines, per_routine, quick=True, extra=None, gen=None):
             ex = extra(rng) if callable(extra) else dict(extra or {})
             try:
                 res = tr.run(name, cfg["script"], cfg["total"], start=cfg["start"], limit=cfg["limit"], warm=cfg["warm"], batch=cfg["batch"],
-                             seed=int(rng.integers(0, 1000)), extra=dict(ex, uf=cfg["uf"]))
+                             cap=cfg.get("cap", 1000), seed=int(rng.integers(0, 1000)), extra=dict(ex, uf=cfg["uf"]))
                 exc = None
             except Exception as e:  # noqa: BLE001
                 import traceback
@@ -144,7 +145,7 @@ def _unpatch_greedy(gp):
 def case_of(r):
     c = r["cfg"]
     return {"routine": r["name"], "script": c["script"], "total_timesteps": c["total"], "global_step": c["start"], "total_episodes": c["limit"],
-            "learning_starts": c["warm"], "batch_size": c["batch"], "update_frequency": c["uf"]}
+            "learning_starts": c["warm"], "batch_size": c["batch"], "update_frequency": c["uf"], "buffer_size": c.get("cap", 1000)}
 
 
 def obs_tag(o):
